@@ -116,6 +116,14 @@ func c11Exec(w *c11World, prog []c11Node) (flat []c11Flat, mustReject bool, ambi
 				own := ids(n.NH)
 				flat = append(flat, c11Flat{Method: "POST", Path: prefix + n.Path, IDs: append(append([]int{}, outer...), own...)})
 				w.f.Post(n.Path, w.hs(own)...)
+			case "routes-all9":
+				// every method in one comma list
+				own := ids(n.NH)
+				all := append(append([]int{}, outer...), own...)
+				for _, mm := range c08KnownMethods {
+					flat = append(flat, c11Flat{Method: mm, Path: prefix + n.Path, IDs: all})
+				}
+				w.f.Routes(n.Path, strings.Join(c08KnownMethods, ","), w.hs(own)...)
 			case "routes-multi3":
 				// three method names as separate leading strings
 				own := ids(n.NH)
@@ -274,7 +282,14 @@ func c11Judge(prog []c11Node, paths []string, l *core.Local) (bad, kind string, 
 	for _, fl := range flat {
 		withHdr = withHdr || fl.Hdr
 	}
-	for _, m := range c11Methods {
+	methods := c11Methods
+	for _, fl := range flat {
+		if fl.Method == "TRACE" || fl.Method == "CONNECT" {
+			methods = append(append([]string{}, c08KnownMethods...), "BREW") // the program registers all nine: ask all nine
+			break
+		}
+	}
+	for _, m := range methods {
 		if m == "HEAD" && ambHead {
 			continue
 		}
@@ -360,6 +375,11 @@ func c11FlattenOnly(prog []c11Node) (flat []c11Flat, mustReject, amb bool) {
 				}
 			case "post":
 				flat = append(flat, c11Flat{Method: "POST", Path: prefix + n.Path, IDs: append(append([]int{}, outer...), ids(n.NH)...)})
+			case "routes-all9":
+				all := append(append([]int{}, outer...), ids(n.NH)...)
+				for _, mm := range c08KnownMethods {
+					flat = append(flat, c11Flat{Method: mm, Path: prefix + n.Path, IDs: all})
+				}
 			case "routes-multi3":
 				all := append(append([]int{}, outer...), ids(n.NH)...)
 				for _, mm := range []string{"GET", "POST", "PUT"} {
@@ -507,6 +527,23 @@ func c11Programs(thorough bool) [][]c11Node {
 			lf := c11Node{Kind: "routes-multi3", Path: pth, NH: nh}
 			progs = append(progs, []c11Node{lf}, []c11Node{{Kind: "group", Path: "/g", NH: 1, Children: []c11Node{lf}}},
 				[]c11Node{{Kind: "group", Path: "/g", NH: 2, Children: []c11Node{lf, {Kind: "get", Path: "/v", NH: 1}}}}, []c11Node{{Kind: "autohead-on"}, lf})
+		}
+	}
+	// all nine methods in one Routes call
+	for _, pth := range []string{"/a", "/{x}"} {
+		lf := c11Node{Kind: "routes-all9", Path: pth, NH: 1}
+		progs = append(progs, []c11Node{lf}, []c11Node{{Kind: "group", Path: "/g", NH: 1, Children: []c11Node{lf}}}, []c11Node{lf, {Kind: "get", Path: "/v", NH: 1}})
+	}
+	// a nested group WITHOUT handlers, closed before a sibling of the enclosing group (which has handlers) is
+	// registered: leaving the inner group restores exactly the outer scope
+	for _, lf := range []c11Node{{Kind: "get", Path: "/a", NH: 1}, {Kind: "any", Path: "/{x}", NH: 1}, {Kind: "combo", Path: "/a", NH: 1}} {
+		for _, onh := range []int{1, 2} {
+			hollow := c11Node{Kind: "group", Path: "/g", NH: 0, Children: []c11Node{{Kind: "get", Path: "/v", NH: 1}}}
+			hollowEmpty := c11Node{Kind: "group", Path: "", NH: 0, Children: []c11Node{{Kind: "post", Path: "/v", NH: 1}}}
+			progs = append(progs,
+				[]c11Node{{Kind: "group", Path: "/g", NH: onh, Children: []c11Node{hollow, lf}}},
+				[]c11Node{{Kind: "group", Path: "/g", NH: onh, Children: []c11Node{hollowEmpty, lf, hollow, {Kind: "post", Path: "/a", NH: 1}}}},
+				[]c11Node{{Kind: "group", Path: "/g", NH: onh, Children: []c11Node{{Kind: "group", Path: "/g", NH: 1, Children: []c11Node{hollow, lf}}, lf}}})
 		}
 	}
 	// separate Combo calls for one path (each with common handlers of its own), flat, in one group, and
